@@ -2,7 +2,7 @@
    (proofs: Framework/State.v).  In the model a lint call is a function, so determinism is immediate; the content
    is the frame condition, which is what the regenerated static facts and the differential harness establish
    about the code. *)
-From ZL Require Import Framework.State Kernels.KuEku.
+From ZL Require Import Framework.State Kernels.KuEku Kernels.Tld Kernels.Calendar Kernels.CalendarFacts.
 From Coq Require Import List ZArith Sorting.Permutation.
 Import ListNotations.
 Open Scope Z_scope.
@@ -41,7 +41,28 @@ Theorem c05_ku_eku_two : forall t a b ka kb x,
     (In x mp <-> In x ka \/ In x kb \/ exists m k, In m ka /\ In k kb /\ x = Z.lor m k).
 Proof. exact multi_two. Qed.
 
+(* e_crl_next_update_invalid with its calendar arithmetic (time.AddDate) modelled in Kernels/Calendar.v: the verdict is
+   a function of the two instants the list carries - no zone, locale or clock is among the arguments - and the limits
+   are exactly these: subscriber lists "more than 864000 seconds", CA lists "later than the same civil date and time of
+   day one year on", where civil_of_days is proved to BE the civil date of the day (a valid date that days_from_civil
+   maps back to it), for every instant *)
+Theorem c05_crl_subscriber_limit : forall this next, next_update_too_late true this next = true <-> next > this + 864000.
+Proof. exact subscriber_rule_exact. Qed.
+
+Theorem c05_crl_ca_limit : forall this next,
+  match civil_of_days (day_of this) with
+  | (y, m, d) => next_update_too_late false this next = true <-> next > instant_of (y + 1) m d (tod this)
+  end.
+Proof. exact ca_rule_exact. Qed.
+
+Theorem c05_civil_date : forall z,
+  match civil_of_days z with (y, m, d) => valid_date y m d /\ days_from_civil y m d = z end.
+Proof. exact civil_date. Qed.
+
 Print Assumptions c05_history_independent.
+Print Assumptions c05_crl_subscriber_limit.
+Print Assumptions c05_crl_ca_limit.
+Print Assumptions c05_civil_date.
 Print Assumptions c05_repeat_same.
 Print Assumptions c05_ku_eku_table_order.
 Print Assumptions c05_ku_eku_order.
